@@ -36,7 +36,8 @@ ASSUMPTIONS = ["numbers are compared by value (1 == 1.0)", "for non-string subsc
 SHRINK = [["clients", "*", "script"], ["clients"]]
 
 CONTENTS = ["plain", "", "quote\"s", "back\\slash", "nl\nnl", "tab\t", "\x00nul", "\x1f", "\x7f", "é", "  ",
-            "\U0001f600", "�", "퟿", "a" * 3000, "\\u0041", "</script>", "\r\n", "\x08\x0c"]
+            "\U0001f600", "�", "퟿", "a" * 3000, "\\u0041", "</script>", "\r\n", "\x08\x0c",
+            "a long content with \"quotes\", a back\\slash, a\nnewline and \U0001f600 non-BMP " * 3]
 TAG_ITEMS = ["", "x", 5, -1, 1.5, 2 ** 53, 2 ** 64, 2 ** 70, True, False, None, ["n"], [], {"a": 1}, "\x00", "é\U0001f600",
              "q\"", "b\\"]
 SUB_IDS = ['q"uote', "back\\slash", "nl\n", "\x00", "\x1f", " ", "\U0001f600", "", "x" * 10000, "é", "a b", "'",
